@@ -124,8 +124,17 @@ class Run(object):
         self.counters[k] = self.counters.get(k, 0) + n
 
     def viol(self, prop, kind, detail, subject=None, cause=None):
+        # run-level cause tags (set by monitors from the case, never from the outcome) apply to
+        # everything observed after them: once the engine's state has left the reference model
+        # through a recorded defect, later disagreements are consequences of that defect
+        cause = list(cause or []) + [t for t in sorted(self.tags) if t not in (cause or [])]
+        cause = cause or None
         self.violations.append(dict(prop=prop, kind=kind, detail=detail, subject=subject, cause=cause,
                                     step=self.step, label=self.label))
+
+    def _notify(self, ev):
+        for m in self.monitors:
+            m.on_call(self, ev)
 
     def _call(self, op, args, fn, *a, **kw):
         """one conductor API call at the boundary: call event, return event, state after"""
@@ -141,8 +150,8 @@ class Run(object):
         self.last = post
         if self.ctl["first_terminal"] is None and post["status"] in TERMINAL:
             self.ctl["first_terminal"] = post["status"]
-        for m in self.monitors:
-            m.on_call(self, ev)
+        if op != "done":
+            self._notify(ev)
         return ev
 
     # ------------------------------------------------------------------ provider operations
@@ -214,6 +223,7 @@ class Run(object):
                     for m in self.monitors:
                         if hasattr(m, "on_done"):
                             m.on_done(self, e2, rec, "succeeded", [])
+                    self._notify(e2)
                     again = True
                     total += 1
                     continue
@@ -241,6 +251,10 @@ class Run(object):
                     self.inflight.append({k: r[k] for k in ("task", "route", "item", "attempt", "loop", "uid")})
             if not again:
                 break
+        if total == 0 and not self.inflight and self.exc is None:
+            for m in self.monitors:
+                if hasattr(m, "quiescent"):
+                    m.quiescent(self, dict(post=self.last))
         return total
 
     def find_inflight(self, task, route, item):
@@ -270,6 +284,7 @@ class Run(object):
         for m in self.monitors:
             if hasattr(m, "on_done"):
                 m.on_done(self, ev, a, status, result)
+        self._notify(ev)
         self.trace.append(("done", a["task"], a["route"], a["item"], a["attempt"], status,
                            "EXC " + repr(ev["exc"])[:160] if ev["exc"] is not None else ev["post"]["status"]))
         return ev
